@@ -170,7 +170,18 @@ def x_groups():
 
 
 def universe(tier):
-    """Yields (family, play encoding); deterministic; no repetitions; every play has reference status 'ok'."""
+    """Yields (family, play encoding); deterministic; no repetitions (families may overlap: the first occurrence
+    counts); every play has reference status 'ok'."""
+    seen = set()
+    for fam, pe in itertools.chain(_universe_raw(tier), zoo_universe(tier), more_universe(tier)):
+        key = hashlib.blake2b(m.fp(pe).encode(), digest_size=10).digest()
+        if key in seen:
+            continue
+        seen.add(key)
+        yield fam, pe
+
+
+def _universe_raw(tier):
     v1 = SC0 + new1()
     n2 = new2()
     thorough = tier == "thorough"
@@ -247,6 +258,92 @@ def string_universe(tier):
         yield "S3", wrap([(S(t), S("x"))])
 
 
+# ---- audit round (mc/LESSONS.md): falsy / boundary scalars, glue characters, more than two of a thing, all small shapes
+
+def zoo_scalars(full=True):
+    """Scalars chosen for the serialiser's blind spots: falsy values, equal-but-differently-typed numbers, the text a
+    non-string renders as, every C0 control character, the zero-width / line-separator / BOM characters inside and
+    outside the escape table, format-string look-alikes, and the non-string scalars the YAML loader can produce."""
+    ctrl = [chr(c) for c in list(range(0, 32)) + [0x7f]]
+    uni = [chr(c) for c in (0x85, 0xa0, 0x200b, 0x200c, 0x200d, 0x200e, 0x2028, 0x2029, 0xfeff, 0x2060)]
+    if not full:
+        ctrl = ["\x00", "\t", "\n", "\r", "\x1b", "\x7f"]
+        uni = [chr(c) for c in (0x200b, 0x200e, 0x2028, 0xfeff)]
+    strs = ["", "0", "1", "-1", "10", "True", "False", "None", "0.0", "-0.0", "1.0", "inf", "-inf", "nan", "1e+16",
+            str(2 ** 64), "[]", "ordereddict()", "()", "b'hi'", "b''", "2001-12-14", "2001-12-14 00:00:00",
+            "{key}", "{value}", "{0}", "{}", "%s", "\\n", "\\t", "\\r", "\\x00", "\\u200b", "\\u2028", "\\ufeff",
+            "\\\\", "'", '"', "\\'", " ", "a ", " a"]
+    out = [S(t) for t in strs] + [S(c) for c in ctrl + uni]
+    out += [I(0), I(1), I(-1), I(10), I(2 ** 63), I(2 ** 64), I(10 ** 30), B(True), B(False), Z]
+    out += [F(x) for x in (0.0, -0.0, 1.0, 0.1, 1e16, 1e22, 1e-07, float("inf"), float("-inf"), float("nan"))]
+    out += [["o", "bytes", b"hi".hex()], ["o", "bytes", ""], ["o", "date", "2001-12-14"],
+            ["o", "datetime", "2001-12-14T00:00:00"]]
+    return out
+
+
+def zoo_universe(tier):
+    every = zoo_scalars(True)
+    core = every if tier == "thorough" else zoo_scalars(False)
+    for z in every:
+        yield "Z1", wrap([(S("k"), z)])
+        yield "Z1", wrap([(S("k"), L(z))])
+        yield "Z1", wrap([(z, S("x"))])
+        yield "Z1", wrap([(S("k"), M((z, S("x"))))])
+    for a in core:
+        for b in core:
+            yield "Z2", wrap([(S("k"), L(a, b))])
+            yield "Z3", wrap([(S("k"), M((a, b)))])
+            if m.dict_key_id(a) != m.dict_key_id(b):
+                yield "Z4", wrap([(a, S("x")), (b, S("y"))])
+
+
+TKEYS = [S("k"), S("1"), I(1), S("a'b")]
+_TREES = {}
+
+
+def _forests(n, width):
+    if n == 0:
+        return [[]]
+    out = []
+    if width == 0:
+        return out
+    for first in range(1, n + 1):
+        for t in trees_exact(first):
+            for rest in _forests(n - first, width - 1):
+                out.append([t] + rest)
+    return out
+
+
+def trees_exact(n):
+    """ALL values with exactly n nodes: leaves a / 1 / [] / {}, inner nodes lists or mappings of <= 4 children."""
+    if n not in _TREES:
+        if n == 1:
+            _TREES[n] = [S("a"), I(1), L(), M()]
+        else:
+            res = []
+            for f in _forests(n - 1, 4):
+                res.append(L(*f))
+                res.append(M(*[(TKEYS[i], c) for i, c in enumerate(f)]))
+            _TREES[n] = res
+    return _TREES[n]
+
+
+def more_universe(tier):
+    """More than two of a thing: 3 and 4 list elements / mapping entries / top-level entries, all small trees."""
+    for n in range(1, (7 if tier == "thorough" else 6)):
+        for t in trees_exact(n):
+            yield "T", wrap([(S("k"), t)])
+    for keys in itertools.permutations(TKEYS, 3):
+        for vs in itertools.product(RR0, repeat=3):
+            yield "N3", wrap(list(zip(keys, vs)))
+            yield "N3", wrap([(S("k"), M(*zip(keys, vs)))])
+    for vs in itertools.product(R0, repeat=3):
+        yield "N3", wrap([(S("k"), L(*vs))])
+    for vs in itertools.product(RR0, repeat=4):
+        yield "N4", wrap([(S("k"), L(*vs))])
+        yield "N4", wrap(list(zip(TKEYS, vs)))
+
+
 def container_of(idx):
     return "odict" if idx % 2 else "dict"
 
@@ -304,6 +401,29 @@ def yaml_special_texts():
     yield _HEAD + '  "1": a\n  1: b\n'
     yield _HEAD + '  1: a\n  "1": b\n'
     yield _HEAD + "  \"1', 'a'), ('1\": b\n"
+    # audit round: sets, timestamps in several spellings, mapping / empty / null keys
+    for v in ["!!set {a, b}", "!!set {b, a}", "!!set {}", "\"set(odict_keys(['a', 'b']))\"", "2001-12-14T21:59:43.10-05:00",
+              "2001-12-15T02:59:43.1Z", "2001-12-14 21:59:43", "\"2001-12-14 21:59:43\"", "2001-12-14T21:59:43",
+              "0", "-0", "0x0", "false", "0.0", "-0.0", "\"0\"", "1_000", "1000", "0b1", "1:30", "\"1:30\"", "0.1", ".1"]:
+        yield _HEAD + "  k: " + v + "\n"
+    for k in ["\"\"", "? \n  ", "? {a: 1}\n  ", "\"{'a': 1}\"", "\"ordereddict([('a', 1)])\"", "0", "false", "\"0\"", "0.0",
+              "!!binary aGk=", "\"b'hi'\""]:
+        yield _HEAD + "  " + k + ": x\n"
+    # a node shared through an anchor between an excluded place and a signed place (audit: aliasing)
+    for x in ("1", "2"):
+        yield ("- hosts: &H {x: %s, y: 2}\n  vars:\n    insights_signature_exclude: /hosts/x,/vars/insights_signature\n"
+               "    insights_signature: c2ln\n  k: *H\n" % x)
+        yield ("- hosts: all\n  vars: &V\n    insights_signature_exclude: /hosts,/vars/insights_signature,/vars/x\n"
+               "    insights_signature: c2ln\n    x: %s\n  tasks:\n    - debug:\n      vars: *V\n" % x)
+        yield ("- hosts: &H {x: %s, y: 2}\n  vars:\n    insights_signature_exclude: /hosts,/vars/insights_signature\n"
+               "    insights_signature: c2ln\n  k: *H\n" % x)
+
+
+def yaml_zoo_plays():
+    for z in zoo_scalars(True):
+        for style in ("yaml-flow", "yaml-block"):
+            yield {"enc": wrap([(S("k"), z)]), "mode": style}
+            yield {"enc": wrap([(z, S("x"))]), "mode": style}
 
 
 # ---- O2 bases ---------------------------------------------------------------------------------
@@ -326,6 +446,22 @@ def o2_bases(tier):
     return out
 
 
+def o2_bases3(tier):
+    """Three-entry plays attacked the same way (audit: more than two of a thing)."""
+    vals = [S("x"), I(1), L(S("x"))] if tier == "quick" else [S("x"), I(1), L(S("x")), S("a'b"), Z]
+    return [[(S("a"), a), (S("b"), b), (S("c"), c)] for a in vals for b in vals for c in vals]
+
+
+def o2_crafted(entries, s):
+    """The smaller plays that use the substring s as a key or as a value."""
+    if len(entries) == 2:
+        (k1, v1), (k2, v2) = entries
+        return [[(S(s), v2)], [(S(s), v1)], [(k1, S(s))], [(k1, L(S(s)))]]
+    (k1, v1), (k2, v2), (k3, v3) = entries
+    return [[(S(s), v3)], [(S(s), v2)], [(k1, S(s))], [(k1, L(S(s)))],
+            [(k1, v1), (S(s), v3)], [(S(s), v2), (k3, v3)], [(k1, S(s)), (k3, v3)], [(k1, v1), (k2, S(s))]]
+
+
 def o2_wrap(entries):
     return wrap(entries, exc="/vars", hosts=None, pos="before")
 
@@ -338,7 +474,7 @@ E_ALL = [STD, "/vars", "/hosts", "/vars/x", "/tasks", "/vars/x/y", "", "/hosts,"
          "/hosts/x/", "/vars,/vars/x", "/hosts/x/y", "/vars/insights_signature/x", "/hosts,/vars/x,/vars/insights_signature",
          "/Hosts", "/hostsx", "/k"]
 E_ODD = [None, I(1), Z, L(S("/hosts"))]          # missing list, ill-typed lists
-SIG_STATES = ["present", "missing", "null"]
+SIG_STATES = ["present", "missing", "null", "empty"]
 
 
 def excl_shapes():
@@ -357,7 +493,7 @@ def excl_plays():
     for name, sh in excl_shapes():
         for e in E_ALL + E_ODD:
             for ss in SIG_STATES:
-                sig = {"present": S(SIG0), "missing": None, "null": Z}[ss]
+                sig = {"present": S(SIG0), "missing": None, "null": Z, "empty": S("")}[ss]
                 va = [] if sh["vx"] is None else [(S("x"), sh["vx"])]
                 yield wrap(sh["entries"], exc=e, hosts=sh["hosts"], sig=sig, vafter=va, pos="between")
     base = [(S("hosts"), S("all")), (S("tasks"), L())]
@@ -369,6 +505,40 @@ def excl_plays():
     yield M()
 
 
+EX_COMPS = ["hosts", "vars", "x", "tasks", "insights_signature"]
+
+
+def excl_gen_strings(full=True):
+    """ALL request paths of <= 3 labels over EX_COMPS, in canonical and in deviating syntax (no leading slash, trailing
+    slash, doubled slash, blanks), alone, doubled, and before / after the usual signature exclusion."""
+    paths = []
+    for n in (1, 2, 3):
+        paths += ["/" + "/".join(c) for c in itertools.product(EX_COMPS, repeat=n)]
+    out = list(paths)
+    for q in paths:
+        out += [q + "," + q, "/vars/insights_signature," + q, q + ",/vars/insights_signature"]
+    if full:
+        for q in paths:
+            out += [q[1:], q + "/", q.replace("/", "//", 1) if q.count("/") > 1 else "/" + q, " " + q, q + " ",
+                    q.replace("/", "/ ", 1), q + "\n", "/vars/insights_signature, " + q]
+    seen, uniq = set(E_ALL), []
+    for e in out:
+        if e not in seen:
+            seen.add(e)
+            uniq.append(e)
+    return uniq
+
+
+def excl_gen_plays(full=True):
+    sh = dict(excl_shapes())["rich"]
+    for e in excl_gen_strings(full):
+        yield wrap(sh["entries"], exc=e, hosts=sh["hosts"], sig=S(SIG0), vafter=[(S("x"), sh["vx"])], pos="between")
+    # the same requests against a play whose hosts is a plain string and whose vars has no x
+    sh = dict(excl_shapes())["plain"]
+    for e in excl_gen_strings(False)[:155 + 0]:
+        yield wrap(sh["entries"], exc=e, hosts=sh["hosts"], sig=S(SIG0), pos="between")
+
+
 # ---- verify family -----------------------------------------------------------------------------
 
 def verify_plays():
@@ -378,8 +548,11 @@ def verify_plays():
             wrap([(S("k"), S("a\\nb"))], pos="before")]
 
 
-REVOCATION_KINDS = ["empty", "self", "other", "other+self", "self-uppercase", "self-last-nibble-changed", "self+other"]
-SIG_KINDS = ["valid", "foreign", "garbage"]
+REVOCATION_KINDS = ["empty", "self", "other", "other+self", "self-uppercase", "self-last-nibble-changed", "self+other",
+                    "self-mixed-case", "self+self", "other+other2+self", "other+self-uppercase+other2",
+                    # the statement is silent about these three: observed, nothing demanded
+                    "malformed-yaml", "list-signature-invalid", "no-revoked-key"]
+SIG_KINDS = ["valid", "foreign", "garbage", "empty", "not-base64", "bad-padding"]
 
 
 # =================================================================================================
@@ -416,6 +589,29 @@ def pipeline(obj):
         return ("exc", "PlaybookVerificationError", str(ex))
     except Exception as ex:
         return ("exc", type(ex).__name__, str(ex)[:200])
+
+
+def shares_containers(obj):
+    """True when some list / mapping object is reachable along two paths (YAML anchors and aliases load that way)."""
+    seen = set()
+
+    def walk(x):
+        if isinstance(x, (dict, list)):
+            if id(x) in seen:
+                return True
+            seen.add(id(x))
+            return any(walk(v) for v in (list(x.values()) if isinstance(x, dict) else x))
+        return False
+    return walk(obj)
+
+
+ALIASING = {"aliasing": "excluded_child_of_shared_node"}
+
+
+def _unshared_twin_ok(pe, ref):
+    """The same content without shared nodes is excluded correctly -> the sharing is the cause."""
+    twin = pipeline(m.dec(pe, dict))
+    return twin[0] == "ok" and m.fp_obj(twin[3]) == m.fp(ref[2])
 
 
 def digest_of_remainder(rem_e):
@@ -520,7 +716,11 @@ def check_pair(case):
     fa, fb = m.fp(refs[0][2]), m.fp(refs[1][2])
     da, db = runs[0][1], runs[1][1]
     if fa != fb and da == db:
-        feats = m.classify_collision(refs[0][2], refs[1][2], digest_of_remainder)
+        if (shares_containers(objs[0]) or shares_containers(objs[1])) and \
+                _unshared_twin_ok(encs[0], refs[0]) and _unshared_twin_ok(encs[1], refs[1]):
+            feats = dict(ALIASING)
+        else:
+            feats = m.classify_collision(refs[0][2], refs[1][2], digest_of_remainder)
         out.append(("digest:injective", "different digests: the signed parts differ",
                     {"digest": da.hex(), "serialised": runs[0][2].decode("utf-8", "replace")[:400]}, feats))
     if fa == fb and da != db:
@@ -544,7 +744,10 @@ def check_single(src, obj=None, pe=None, run=None):
                      {"raised": run[1], "rule": ref[1]})]
         got = m.fp_obj(run[3])
         if got != m.fp(ref[2]):
-            out.append(("exclusion:remainder-matches-reference", ref[2], m.enc(run[3]), {"rule": ref[1]}))
+            feats = {"rule": ref[1]}
+            if shares_containers(obj) and _unshared_twin_ok(pe, ref):
+                feats = dict(ALIASING)
+            out.append(("exclusion:remainder-matches-reference", ref[2], m.enc(run[3]), feats))
         again = pipeline(obj)
         if again[0] != "ok" or again[1] != run[1]:
             out.append(("digest:repeatable", run[1].hex(), again[1].hex() if again[0] == "ok" else "%s: %s" % again[1:3],
@@ -592,12 +795,16 @@ def check_excl(case):
     return out, status, obs
 
 
-def revocation_yaml(hashes):
+def revocation_yaml(hashes, drop_key=False):
     """A revocation file shaped like insights/revoked_playbooks.yaml, signed for the stub."""
     p = pv()
     body = ("- name: revocation list\n  timestamp: 1632510092\n  vars:\n"
             "    insights_signature_exclude: /vars/insights_signature\n    insights_signature: %s\n  revoked_playbooks:%s\n")
+    if drop_key:
+        body = body.replace("  revoked_playbooks:%s\n", "  comment: no list%s\n")
     items = "".join("\n    - name: revoked %d\n      hash: \"%s\"\n" % (i, h) for i, h in enumerate(hashes)) or " []"
+    if drop_key:
+        items = ""
     doc = p.load_playbook_yaml(body % ("c2ln", items))[0]
     run = pipeline(doc)
     if run[0] != "ok":
@@ -635,17 +842,29 @@ def _check_verify(case):
         raise _ValidPlayRefused(other_run)
     other = other_run[1]
     sk = case["sig"]
-    sig = {"valid": sig_for(digest), "foreign": sig_for(other), "garbage": base64.b64encode(b"x").decode()}[sk]
+    sig = {"valid": sig_for(digest), "foreign": sig_for(other), "garbage": base64.b64encode(b"x").decode(),
+           "empty": "", "not-base64": "!!!", "bad-padding": "a"}[sk]
     h, o = digest.hex(), other.hex()
+    o2 = hashlib.sha256(b"a third play").hexdigest()
     flipped = h[:-1] + ("0" if h[-1] != "0" else "1")
+    mixed = "".join(c.upper() if i % 2 else c for i, c in enumerate(h))
+    rk = case["revoked"]
     hashes = {"empty": [], "self": [h], "other": [o], "other+self": [o, h], "self-uppercase": [h.upper()],
-              "self-last-nibble-changed": [flipped], "self+other": [h, o]}[case["revoked"]]
+              "self-last-nibble-changed": [flipped], "self+other": [h, o], "self-mixed-case": [mixed],
+              "self+self": [h, h], "other+other2+self": [o, o2, h], "other+self-uppercase+other2": [o, h.upper(), o2],
+              "malformed-yaml": [h], "list-signature-invalid": [h], "no-revoked-key": []}[rk]
     revoked = any(bytes.fromhex(x) == digest for x in hashes)
     expect_accept = (sk == "valid") and not revoked
     src = dict(case["play"])
     src["enc"] = with_sig(pe, S(sig))
     obj, _ = build(src)
-    with stubbed(revocation_yaml(hashes)):
+    rev = revocation_yaml(hashes, drop_key=(rk == "no-revoked-key"))
+    undecided = rk in ("malformed-yaml", "list-signature-invalid", "no-revoked-key")
+    if rk == "malformed-yaml":
+        rev = b"- name: [unclosed\n  vars: {\n"
+    elif rk == "list-signature-invalid":
+        rev = rev.replace(b"timestamp: 1632510092", b"timestamp: 1632510093")     # signed content edited
+    with stubbed(rev):
         try:
             ret = p.verify(obj)
             got = "accepted"
@@ -656,6 +875,8 @@ def _check_verify(case):
             got = type(ex).__name__
             ret = str(ex)[:200]
     feats = {"revocation_list": case["revoked"], "signature": sk}
+    if undecided and sk == "valid":
+        return out, "undecided", got
     if expect_accept and got != "accepted":
         out.append(("verify:unrevoked-valid-play-accepted", "accepted", "%s: %s" % (got, ret), feats))
     if not expect_accept and got == "accepted":
@@ -678,7 +899,7 @@ def units(tier, seed):
     us += [{"part": "o3a", "shard": i, "of": 4} for i in range(4)]
     us += [{"part": "yaml", "lo": lo, "hi": hi} for lo, hi in yaml_chunks(tier)]
     us += [{"part": "yaml-pairs", "shard": i, "of": 8} for i in range(8)]
-    us += [{"part": "yaml-special"}]
+    us += [{"part": "yaml-special"}, {"part": "yaml-zoo"}]
     us += [{"part": "excl", "mode": md} for md in ("dict", "odict", "yaml-flow", "yaml-block")]
     us += [{"part": "verify", "mode": md} for md in ("dict", "yaml-flow")]
     return us
@@ -770,7 +991,7 @@ def _run_o1(unit, tier, res):
 
 def _run_o2(unit, tier, res):
     p = pv()
-    bases = o2_bases(tier)[unit["lo"]:unit["hi"]]
+    bases = (o2_bases3(tier) if unit.get("entries") == 3 else o2_bases(tier))[unit["lo"]:unit["hi"]]
     for entries in bases:
         base_e = o2_wrap(entries)
         base_src = {"enc": base_e, "mode": "dict"}
@@ -782,7 +1003,6 @@ def _run_o2(unit, tier, res):
         text = run[2].decode("utf-8")
         target = run[1]
         base_fp = m.fp(m.ref_exclusion(base_e)[2])
-        (k1, v1), (k2, v2) = entries
         seen = set()
         n = len(text)
         res.maxi("o2_longest_attacked_text", n)
@@ -792,7 +1012,7 @@ def _run_o2(unit, tier, res):
                 if s in seen or not (DELIMS & set(s)):
                     continue
                 seen.add(s)
-                crafted = [[(S(s), v2)], [(S(s), v1)], [(k1, S(s))], [(k1, L(S(s)))]]
+                crafted = o2_crafted(entries, s)
                 for sk, ents in enumerate(crafted):
                     qe = o2_wrap(ents)
                     qobj = m.dec(qe, dict)
@@ -870,7 +1090,11 @@ def _run_yaml(srcs, res, label):
             twin = pipeline(m.dec(pe, dict))
         except ValueError:
             twin = ("n/a",)
-        if twin[0] == "ok" and twin[1] == run[1]:
+        if vio:
+            res.stat("yaml_play_with_violation_not_compared_with_twin")
+        elif twin[0] == "n/a":
+            res.stat("yaml_play_without_dict_twin")        # loader-only types (sets): grouped inside this unit only
+        elif twin[0] == "ok" and twin[1] == run[1]:
             res.stat("yaml_digest_equals_dict_twin")
         else:
             res.stat("yaml_digest_differs_from_dict_twin")
@@ -910,6 +1134,8 @@ def run_unit(unit, tier):
         res.samples.append({"kind": "single", "play": srcs[0]})
     elif part == "yaml-pairs":
         _run_yaml(list(yaml_pair_plays(unit["shard"], unit["of"])), res, "yaml-pairs")
+    elif part == "yaml-zoo":
+        _run_yaml(list(yaml_zoo_plays()), res, "yaml-zoo")
     elif part == "yaml-special":
         _run_yaml([{"yamltext": t} for t in yaml_special_texts()], res, "yaml-special")
     elif part == "excl":
